@@ -20,12 +20,12 @@ MANIFEST = dict(
     technique="TLA+ spec Options (writer-side validation vs reader-side limits as predicates over the option grid, as-built and repaired variants) evaluated by TLC; every grid point exported by TLC is executed on the real writers and readers and compared with the predicted outcome class",
     text="Options.tla states what every reader accepts (lc<=8, lp<=4, pb<=4, lc+lp<=4 and props<=224 for LZMA2, delta 1..256, BCJ alignment, dictionary limits, no preset dictionary in containers) and what every writer validates, as predicates over the boundary grid of all public option fields (lc 0..9 x lp 0..5, pb, 12 dictionary classes up to u32::MAX, nice_len {0,1,2,3,4,7,8,273,274,1000} x match finder x mode, depth extremes, preset dictionary classes, XZ filter properties, chunk/block/member sizes, worker counts, .lzma expected size). TLC checks WriterAccepts => ReaderDecodes \\/ WriterErrors on the repaired variant and exports every as-built grid point with its predicted class; each point is executed on the real code with five inputs (panics contained, possible aborts isolated in child processes) and must end in Err or in a stream the corresponding reader decodes to the written bytes.",
     ref="4.11, 6/C19",
-    note="Boundary slices around one base point per writer, not the full product of all fields; inputs <= 300 KiB (quick) / 4 MiB (thorough). Dictionaries >= 768 MiB really commit several GiB; they are executed one at a time under a 6 GiB address-space limit with a 3000-byte input (limit hit = no verdict), and the quick tier executes only the 768 MiB boundary on two writers plus the classes refused before allocation. Decoding uses the crate's own corresponding reader with the writer's parameters.",
+    note="Boundary slices around one base point per writer, not the full product of all fields; inputs <= 300 KiB (quick) / 4 MiB (thorough). Dictionaries >= 768 MiB really commit several GiB; they are executed one at a time under a 5 GiB address-space limit with a 3000-byte input (limit hit = no verdict), and the quick tier executes only the 768 MiB boundary on two writers plus the classes refused before allocation. Decoding uses the crate's own corresponding reader with the writer's parameters.",
     ready=True,
 )
 
 ASB_FILE = os.path.join(core.VERIF, "spec", "asbuilt_options.json")
-VNAMES = ["VProps", "VDict", "VNice", "VPreset", "VFilter", "VSize"]
+VNAMES = ["VProps", "VDict", "VNice", "VPreset", "VFilter", "VSize", "VReaderMinDict"]
 WRITERS = ["lzma", "lzmahdr", "lzma2", "xz", "lzip", "lzma2mt", "lzipmt"]
 DICT = {"0": 0, "1": 1, "4095": 4095, "4096": 4096, "64K": 65536, "1M": 1 << 20, "768M": 768 << 20, "768M+1": (768 << 20) + 1,
         "1.5G": 0x60000000, "2G": 0x80000000, "4G-16": 0xFFFFFFF0, "4G-1": 0xFFFFFFFF}
@@ -162,8 +162,9 @@ def affordable(p, quick):
         return True
     if not quick:
         return True
+    # only writers that refuse the value before allocating: LZMA2Writer clamps it to a real 768 MiB dictionary (~4.5 GiB)
     if p["dict"] in ("2G", "4G-16", "4G-1"):
-        return p["w"] in ("lzma", "lzma2", "xz")
+        return p["w"] in ("lzma", "xz")
     return p["dict"] == "768M+1" and p["w"] == "xz"
 
 
@@ -214,8 +215,8 @@ def run(tier, replay=None):
             (iso_cases if isolated(p) else cases).append(c)
     strip = lambda c: {k: v for k, v in c.items() if k != "pi"}
     res = dlib.run_cases("vh_opt", [strip(c) for c in cases], timeout=3000, per_batch=40)
-    # strictly sequential, 6 GiB address-space cap, 120 s each: a grid point must never exhaust the machine
-    ires = dlib.run_cases_isolated("vh_opt", [strip(c) for c in iso_cases], nproc=1, timeout=120, as_limit=6 << 30)
+    # strictly sequential, 5 GiB address-space cap, 180 s each: a grid point must never exhaust the machine
+    ires = dlib.run_cases_isolated("vh_opt", [strip(c) for c in iso_cases], nproc=1, timeout=180, as_limit=5 << 30)
     per_point = collections.defaultdict(list)
     n_resource = 0
     for c, r in list(zip(cases, res)) + list(zip(iso_cases, ires)):
@@ -282,7 +283,7 @@ def run(tier, replay=None):
     ctx.assumptions += ["boundary slices around one base point per writer (not the full product of the option fields)",
                         "decoding with the crate's own corresponding reader, told the writer's parameters where the format carries none",
                         "dictionaries >= 768 MiB commit several GiB (aligned tables are really zero-filled): executed one at a time under a "
-                        "6 GiB address-space limit with a 3000-byte input; hitting the limit is 'no verdict'; quick executes only the "
+                        "5 GiB address-space limit with a 3000-byte input; hitting the limit is 'no verdict'; quick executes only the "
                         "768 MiB boundary on two writers and the classes refused before allocation"]
     ctx.finish()
 
